@@ -1,1 +1,37 @@
-From Xdis Require Import Base.Prelude.
+(* C10 - every marshal encoding of a constant decodes to the same value.
+   `r_object fuel (cpy_cfg m)` is CPython's marshal.c reader for the bytecode version of magic m
+   (strict: sizes, digits, references and type codes validated; NULL in reserved reference slots);
+   `r_object fuel (xdis_cfg m)` is xdis's reader (Model/Unmarshal.v, permissive Python behaviours,
+   placeholders in reserved slots).  Both are run against their originals on every check. *)
+From Xdis Require Import Base.Prelude Base.Result Model.Unmarshal Model.UnmarshalObs Gen.Magics Gen.Dispatch
+  Proofs.UnmarshalProofs Proofs.C10Tables.
+
+(* For every magic xdis knows, every byte stream and every state of the reference / interned-string
+   tables that CPython could be in: whenever CPython's reader yields a value, xdis's reader yields
+   the SAME value (kind and content, whatever encoding was used: any type code, FLAG_REF on any
+   object, back-references, containers of any size, None keys and values ...), consumes exactly the
+   same bytes, and leaves related tables - so shared sub-objects are equal at every later reference. *)
+Theorem C10_agree : forall m fuel ss sm v ss', In m all_magics -> st_rel ss sm ->
+  r_object fuel (cpy_cfg m) ss = Ok (v, ss') ->
+  exists sm', r_object fuel (xdis_cfg m) sm = Ok (v, sm') /\ st_rel ss' sm'.
+Proof. intros m fuel ss sm v ss' Hin. exact (r_object_agree _ _ (cfg_rel_magic m Hin) fuel ss sm v ss'). Qed.
+
+(* top level: a whole payload *)
+Theorem C10_load : forall m bs v st, In m all_magics -> load (cpy_cfg m) bs = Ok (v, st) ->
+  exists st', load (xdis_cfg m) bs = Ok (v, st') /\ inp st' = inp st.
+Proof.
+  intros m bs v st Hin H. unfold load in *.
+  assert (Hr : st_rel (init_state bs) (init_state bs)) by (unfold st_rel; cbn; auto).
+  destruct (r_object_agree _ _ (cfg_rel_magic m Hin) _ _ _ _ _ Hr H) as (st' & E & (R1 & _)).
+  exists st'. split; [exact E|symmetry; exact R1].
+Qed.
+
+(* the type-code dispatch table of the source is the one the model assumes (e.g. '<' set, '>' frozenset) *)
+Theorem C10_dispatch : dispatch_ok = true.
+Proof. exact dispatch_ok_true. Qed.
+
+Example C10_nonvacuous :
+  load (cpy_cfg 3531) [219; 2; 0; 0; 0; 233; 5; 0; 0; 0; 114; 1; 0; 0; 0] = load (xdis_cfg 3531) [219; 2; 0; 0; 0; 233; 5; 0; 0; 0; 114; 1; 0; 0; 0]
+  /\ (exists st, load (cpy_cfg 3531) [219; 2; 0; 0; 0; 233; 5; 0; 0; 0; 114; 1; 0; 0; 0] = Ok (PList [PInt 5; PInt 5], st))
+  /\ In 3531 all_magics.
+Proof. split; [vm_compute; reflexivity|]. split; [eexists; vm_compute; reflexivity|]. vm_compute. tauto. Qed.
